@@ -229,6 +229,8 @@ func genReplay(e *Engine, ob *Obligation, extra map[string]interface{}) bool {
 		want string
 	}
 	var expects []exp
+	refCompared := 0
+	onlyRefs := false
 	for i := 0; i < nres; i++ {
 		lhs = append(lhs, fmt.Sprintf("r%d", i))
 		rt := sig.Results().At(i).Type()
@@ -301,9 +303,23 @@ func genReplay(e *Engine, ob *Obligation, extra map[string]interface{}) bool {
 					expects = append(expects, exp{i, fmt.Sprintf("%d:[%s]", ln.Int64(), strings.Join(bs, " "))})
 				}
 			}
+		case *types.Pointer, *types.Interface, *types.Map, *types.Chan, *types.Signature:
+			// a reference result: compared for nil-ness (an error returned by the real code where the model has none
+			// means the model followed an abstracted library call the real code does not follow)
+			prints = append(prints, fmt.Sprintf("fmt.Printf(\"SFR %d %%t\\n\", r%d == nil)", i, i))
+			if have {
+				if n, ok := parseSMTInt(want); ok {
+					expects = append(expects, exp{i, fmt.Sprint(n.Sign() == 0)})
+					refCompared++
+				}
+			}
 		default:
 			prints = append(prints, fmt.Sprintf("_ = r%d", i))
 		}
+	}
+	if refCompared == len(expects) && len(expects) > 0 && ob.Kind == "post" {
+		// only nil-ness of references could be compared: too little to call the counterexample confirmed
+		onlyRefs = true
 	}
 	call := ob.Fn.Name() + "(" + strings.Join(args, ", ") + ")"
 	var b strings.Builder
@@ -359,11 +375,25 @@ func genReplay(e *Engine, ob *Obligation, extra map[string]interface{}) bool {
 	if ob.Kind != "post" {
 		return false
 	}
+	// A postcondition counterexample is only as faithful as the model of what the function calls: if the function goes
+	// through code that is abstracted (a dependency or callee whose result the model leaves unconstrained), equal outputs
+	// do not show that the real run followed the model's path.
+	for a := range ob.Unit.Assumptions {
+		abstracted := strings.HasPrefix(a, "dependency ") || strings.HasPrefix(a, "call through interface ") || strings.HasPrefix(a, "in-repo callee ") || strings.HasPrefix(a, "dynamic call ") || strings.HasPrefix(a, "assumed contract of ")
+		if !abstracted {
+			continue
+		}
+		if strings.Contains(a, "(net.IP).To4") || strings.Contains(a, "math.Ceil") || strings.Contains(a, "math.Floor") {
+			continue // functional contracts: the model determines their results
+		}
+		extra["replay_note"] = "not confirmed: the function goes through abstracted code (" + clipStr(a, 120) + "), so the model's arguments do not determine the real run"
+		return false
+	}
 	if strings.Contains(out, "SFPANIC") {
 		extra["replay_note"] = "the real function panics on the model's arguments (the postcondition is not reached)"
 		return false
 	}
-	if len(expects) == 0 {
+	if len(expects) == 0 || onlyRefs {
 		extra["replay_note"] = "no scalar result to compare with the model"
 		return false
 	}
